@@ -74,11 +74,11 @@ def plan(tier):
     if tier == "quick":
         return dict(n_cases=300, shards=2, classes=CLASSES, timeout_s=600,
                     min_evals={"sort_tilts_by_angle": 2000, "remove_tilts": 2800, "split_stack_even_odd": 2000, "flip_along_axes": 3500,
-                               "crop": 3000, "bin": 2000, "params_unchanged": 5000, "file_replaced": 550, "output_file": 5000, "output_file_bin_int16_fractional": 150, "indices_load": 1000, "same_result": 4500,
+                               "crop": 3000, "bin": 2000, "params_unchanged": 5000, "file_replaced": 550, "output_file": 5000, "output_file_bin_int16_fractional": 150, "indices_load": 3800, "indices_load_direct": 3800, "same_result": 4500,
                                "interleave": 1000, "flip_twice": 800})
     return dict(n_cases=8000, shards=16, classes=CLASSES, timeout_s=3000,
                 min_evals={"sort_tilts_by_angle": 55000, "remove_tilts": 60000, "split_stack_even_odd": 55000, "flip_along_axes": 95000,
-                           "crop": 60000, "bin": 55000, "params_unchanged": 150000, "file_replaced": 15000, "output_file": 150000, "output_file_bin_int16_fractional": 5000, "indices_load": 30000, "same_result": 130000,
+                           "crop": 60000, "bin": 55000, "params_unchanged": 150000, "file_replaced": 15000, "output_file": 150000, "output_file_bin_int16_fractional": 5000, "indices_load": 100000, "indices_load_direct": 100000, "same_result": 130000,
                            "interleave": 30000, "flip_twice": 23000})
 
 
@@ -278,7 +278,7 @@ def setup(ctx):
     f_crop = monitors.wrap(ctx, tiltstack, "crop", "crop", _post_crop, _app_crop)
     f_bin = monitors.wrap(ctx, tiltstack, "bin", "bin", _post_bin, _app_bin)
     f_idx = monitors.wrap(ctx, ioutils, "indices_load", "indices_load", _post_idx, _app_idx)
-    ctx.declare("output_file", "output_file_bin_int16_fractional", "same_result", "interleave", "flip_twice", "params_unchanged", "file_replaced")
+    ctx.declare("output_file", "output_file_bin_int16_fractional", "same_result", "interleave", "flip_twice", "params_unchanged", "file_replaced", "indices_load_direct")
     TS = tiltstack.TiltStack
     monitors.trace(ctx, [
         ("TiltStack.__init__", TS.__init__, {"load_file": "self.data = cryomap.read(tilt_stack, transpose=False)",
@@ -782,6 +782,29 @@ def _file_replaced(ctx, case, rng):
                         r2, nyx=B, monitor="file_replaced")
 
 
+def _indices_load_direct(ctx, case):
+    """ioutils.indices_load called DIRECTLY by the driver (keyword form, fresh objects/files), for every representation and
+    both numberings.  Why: the indices_load call monitor must be reached whatever cryoCAT's internal call structure is - if
+    remove_tilts stopped routing through the public indices_load (private helper, inlined code) the monitor would otherwise
+    see nothing and the run would turn inconclusive on correct code.  The call monitor judges each call (values, order);
+    the driver additionally compares the returned set with the case's original 0-based subset."""
+    want = sorted(int(q) for q in case["idx0"])
+    j = 0
+    for kind in ("list", "array", "array_i32", "txt", "csv", "csv_removed"):
+        for from1 in ((True, False) if not kind.startswith("csv") else (bool(case["i"] % 2),)):
+            j += 1
+            arg = _indices_input(ctx, case, {"idx": kind, "from1": from1}, 100 + j)
+            ok, r = ctx.call("indices_load", ctx.io.indices_load, input_data=arg, numbered_from_1=from1)
+            if not ok:
+                continue
+            try:
+                got = sorted(int(q) for q in np.atleast_1d(np.asarray(r)).ravel().tolist())
+            except Exception:
+                got = None
+            ctx.check("indices_load_direct", got == want, {"returned_sorted": got if got is None else got[:12], "expected_0based_sorted": want[:12],
+                                                           "given_as": kind, "numbered_from_1": from1})
+
+
 def run_case(ctx, case):
     ts = ctx.ts
     rng = ctx.rng(case["i"], 1)
@@ -822,6 +845,7 @@ def run_case(ctx, case):
         ctx.check("flip_twice", w is None, w and dict(w, axis=ax, first_call=v1, second_input="file written by first call" if via_file else "returned array",
                                                       second_output_order=o2))
     _file_replaced(ctx, case, rng)
+    _indices_load_direct(ctx, case)
     for f in os.listdir(ctx.scratch):
         if f.startswith("c%s_" % case["i"]):
             try:
